@@ -237,7 +237,9 @@ def plan(tier: str, seed: int):
     k = 2
     combos = list(itertools.combinations_with_replacement(range(len(menu)), 2))
     if tier == "thorough":
-        combos += list(itertools.combinations(range(len(menu)), 3))
+        # three tasks: only over the loader with exactly one suspension per lookup (about 2,000 schedules per set). Three
+        # tasks over the other loaders exceed 400,000 schedules per set (measured) and would only be explored up to a cap.
+        combos += [c for c in itertools.combinations(range(len(menu)), 3) if all(menu[i][1] == "caching-slow" for i in c)]
     # task sets share state only through a common loader/environment: keep the sets that use one loader kind
     combos = [c for c in combos if len({menu[i][1] for i in c}) == 1]
     for c in combos:
